@@ -470,6 +470,11 @@ def run(ctx):
     finally:
         pool.close()
     ctx.merge_hits(stats)
+    if configs and stats.get('unrealisable', 0) * 2 > configs:
+        # vacuity guard: most configurations could not even be set up (e.g. the run directory is not reachable for the other
+        # uid the sender connects under): a run that judged next to nothing must not read as "held"
+        raise RuntimeError('C06: %d of %d configurations could not be set up (is %s traversable for uid %d?) - nothing was judged' %
+                           (stats.get('unrealisable', 0), configs, os.path.dirname(os.path.abspath(__file__)), S_UID))
     ctx.coverage.update({
         'states': configs, 'transitions': stats.get('probes', 0), 'traces_validated_against_impl': stats.get('probes', 0),
         'configurations': configs, 'probes': stats.get('probes', 0), 'judged_allowed': stats.get('allowed', 0), 'judged_denied': stats.get('denied', 0),
